@@ -37,6 +37,7 @@ THEOREMS = [
     "Verif.C19.num_frames_idempotent",
     "Verif.C19.F5_witness",
     "Verif.C19.purity_after_repair_partial",
+    "Verif.C19.repair_not_inherited_witness",
     "Verif.C19.alias_refines",
     "Verif.C19.alias_inv",
     "Verif.C19.alias_writes_invisible",
